@@ -68,12 +68,13 @@ def conic_plane_lens(ctx, d, obj_t, s=1.0, na=None):
          bounds='conic + plane singlet (R, k, thicknesses, index, EPD, aperture radius, field angle symbolic), object at infinity or at a symbolic '
                 'finite distance, aperture given as EPD or (finite object) as object-space NA, angular fields; scale factor s in [0.01, 100] symbolic',
          doc='Optic.scale_system(s) produces exactly the lens built with every length multiplied by s: vertex positions (the object too), radii, '
-             'conic and indices unchanged, EPD, aperture radii; the paraxial focal length of the result is s times the original one')
+             'conic and indices unchanged, EPD, aperture radii (and which points the aperture lets through); the paraxial focal length of the result is s times the original one')
 def h1_scale_system(ctx, obj, ap='EPD'):
     d = lens_numbers(ctx)
     s = ctx.real('s', lo=0.01, hi=100.0)
     t0 = ctx.real('t0', lo=1.0, hi=500.0) if obj == 'finite' else None
     na = ctx.real('na', lo=0.01, hi=0.5) if ap == 'objectNA' else None          # (a numerical aperture is not a length: it must not be scaled)
+    px, py = ctx.real('px'), ctx.real('py')
     o = conic_plane_lens(ctx, d, t0, na=na)
     f_before = ctx.val(o.paraxial.f2())
     o.scale_system(s)
@@ -92,6 +93,13 @@ def h1_scale_system(ctx, obj, ap='EPD'):
     for k_, (sa, sb) in enumerate(zip(o.surface_group.surfaces, want.surface_group.surfaces)):
         if sb.aperture is not None:
             ctx.oblige(f'aperture_{k_}', sa.aperture is not None and ctx.And(ctx.eq(sa.aperture.r_max, sb.aperture.r_max), ctx.eq(sa.aperture.r_min, sb.aperture.r_min)))
+            if sa.aperture is not None:
+                # ... and it BEHAVES like the aperture of the scaled lens: a ray landing at an arbitrary point is kept or removed alike
+                from checks.C02 import mkrays
+                r1, r2 = (mkrays(ctx, px, py, 0.0, 0.0, 0.0, 1.0) for _ in range(2))
+                sa.aperture.clip(r1)
+                sb.aperture.clip(r2)
+                ctx.oblige(f'aperture_{k_}_clips_like_the_scaled_one', ctx.eq(ctx.val(r1.i), ctx.val(r2.i)))
     fa = ctx.val(o.paraxial.f2())
     if ctx.finite(fa) and ctx.finite(f_before):
         ctx.oblige('focal_length_scales', ctx.eq(fa, s * f_before))
